@@ -867,8 +867,95 @@ def run_stored(case):
 
 
 # =============================================================================== dispatch
+# =============================================================================== life cycle
+LIFECYCLE = ["daily", "daily_legacy", "billing", "hourly", "hourly_object", "hourly_supplemental", "hourly_solar"]
+
+
+def cases_lifecycle(tier):
+    return [{"space": "lifecycle", "profile": p} for p in LIFECYCLE]
+
+
+def run_lifecycle(case):
+    """the settings a model was built with are the settings it has after fit(), predict() and a storage round trip (a fit that
+    writes into its settings object changes the method after the fact)"""
+    import numpy as np
+    import opendsm.eemeter as em
+    from opendsm.eemeter.models.hourly import settings as hs
+
+    from .. import datasets as ds
+
+    prof = case["profile"]
+    given = None
+    if prof in ("daily", "daily_legacy", "billing"):
+        fr = ds.daily_frame(days=365, noise=0.05)
+        m = {"daily": lambda: em.DailyModel(), "daily_legacy": lambda: em.DailyModel(model="legacy"), "billing": lambda: em.BillingModel()}[prof]()
+        if prof == "billing":
+            data = em.BillingBaselineData.from_series(ds.billing_reads(fr["observed"]), fr["temperature"], is_electricity_data=True)
+        else:
+            data = em.DailyBaselineData(fr, is_electricity_data=True)
+        rep = data
+    else:
+        fr = ds.hourly_frame(days=365, solar=prof == "hourly_solar")
+        if prof == "hourly_supplemental":
+            rng = np.random.default_rng(5)
+            fr["Wind"] = np.round(rng.uniform(0, 20, len(fr)), 1)
+            fr["observed"] = fr["observed"] + 0.02 * fr["Wind"]
+            m = em.HourlyModel(settings={"seed": 7, "supplemental_time_series_columns": ["Wind"]})
+        elif prof == "hourly_object":
+            given = hs.HourlyNonSolarSettings(seed=7)
+            m = em.HourlyModel(settings=given)
+        else:
+            m = em.HourlyModel(settings={"seed": 7})
+        data = em.HourlyBaselineData(fr, is_electricity_data=True)
+        rep = em.HourlyReportingData(fr.iloc[: 24 * 40].copy(), is_electricity_data=True)
+    viol, beh = [], []
+    snap0 = _snapshot(m.settings)
+    given0 = _snapshot(given) if given is not None else None
+    steps = [("fit", lambda: m.fit(data, ignore_disqualification=True)), ("predict", lambda: m.predict(rep, ignore_disqualification=True)),
+             ("to_json", lambda: m.to_json())]
+    for name, fn in steps:
+        try:
+            fn()
+        except Exception as e:  # noqa
+            return {"rejected": f"{prof}: {name} raised {type(e).__name__}: {str(e)[:80]}"}
+        now = _snapshot(m.settings)
+        # a field left unset (None) may be resolved by fit(); a field that HAS a value keeps it
+        diffs = [p_ for p_ in sr.diff_paths(now, snap0) if sr.get_path(snap0, p_.split(".")) is not None]
+        if diffs:
+            viol.append({"clause": "settings_changed_by_use", "key": {"profile": prof, "step": name},
+                         "detail": f"{prof}: model.settings differs after {name}() at {diffs[:6]}: "
+                                   f"{[(p_, sr.get_path(snap0, p_.split('.')), sr.get_path(now, p_.split('.'))) for p_ in diffs[:3]]}"})
+            break
+        if given is not None and sr.diff_paths(_snapshot(given), given0):
+            viol.append({"clause": "settings_changed_by_use", "key": {"profile": prof, "step": name, "object": "callers"},
+                         "detail": f"{prof}: the settings object handed to the constructor differs after {name}()"})
+            break
+        beh.append(name)
+    # the resolved settings are a fixpoint: a model built from them and fitted on the same data ends with the same settings
+    if not viol and prof.startswith("hourly"):
+        resolved = _snapshot(m.settings)
+        try:
+            m2 = em.HourlyModel(settings=type(m.settings)(**m.settings.model_dump()))
+            m2.fit(data, ignore_disqualification=True)
+            again = _snapshot(m2.settings)
+        except Exception as e:  # noqa
+            viol.append({"clause": "resolved_settings_not_reusable", "key": {"profile": prof, "exc": type(e).__name__},
+                         "detail": f"{prof}: a model built from the settings this model holds after fit() cannot be fitted on the same data: "
+                                   f"{type(e).__name__}: {str(e)[:160]}"})
+        else:
+            d2 = sr.diff_paths(again, resolved)
+            if d2:
+                viol.append({"clause": "resolved_settings_not_a_fixpoint", "key": {"profile": prof},
+                             "detail": f"{prof}: settings after fit() {[(p_, sr.get_path(resolved, p_.split('.'))) for p_ in d2[:3]]} become "
+                                       f"{[(p_, sr.get_path(again, p_.split('.'))) for p_ in d2[:3]]} when a model built from them is fitted again"})
+            beh.append("refit_from_resolved")
+    return {"behaviour": [prof, beh], "violations": viol, "stats": {"constructions": 1}}
+
+
 def run_case(case):
     sp = case["space"]
+    if sp == "lifecycle":
+        return run_lifecycle(case)
     if sp in ("single", "cluster", "pairs", "flagpairs"):
         return run_overrides(case)
     if sp == "defaults":
@@ -886,7 +973,7 @@ def run(tier, seed):
     env.setup_env()
     env.quiet_library()
     spaces = [("defaults", cases_defaults), ("single", cases_single), ("cluster", cases_cluster),
-              ("assign", cases_assign), ("stored", cases_stored), ("flagpairs", cases_flagpairs)]
+              ("assign", cases_assign), ("stored", cases_stored), ("flagpairs", cases_flagpairs), ("lifecycle", cases_lifecycle)]
     if tier == "thorough":
         spaces.append(("pairs", cases_pairs))
     exps = []
